@@ -16,6 +16,7 @@ import (
 	"verif/checks/c13"
 	"verif/checks/c14"
 	"verif/checks/c15"
+	"verif/checks/c19"
 	"verif/checks/c16"
 	"verif/checks/c18"
 	"verif/checks/c20"
@@ -30,6 +31,7 @@ func main() {
 		"C06": c06.Check,
 		"C14": c14.Check,
 		"C15": c15.Check,
+		"C19": c19.Check,
 		"C02": c02.Check,
 		"C03": c03.Check,
 		"C07": c07.Check,
